@@ -14,6 +14,7 @@ import (
 	"encoding/pem"
 	"errors"
 	"fmt"
+	"golang.org/x/crypto/curve25519"
 	"io"
 	"math/rand"
 	"os"
@@ -129,10 +130,27 @@ func buildRecipients(w *world.World, rs []rcp) []age.Recipient {
 }
 
 func encryptObserved(w *world.World, rs []rcp, pt []byte, armored bool) Observation {
-	return encryptObservedWith(buildRecipients(w, rs), pt, armored, len(pt)%2 == 1 || (len(pt) > 0 && len(pt)%65536 == 0))
+	return encryptObservedWith(buildRecipients(w, rs), pt, armored, writeStyle(len(pt)))
 }
 
-func encryptObservedWith(recips []age.Recipient, pt []byte, armored bool, viaCopy bool) Observation {
+var styleTurn int32
+
+// writeStyle picks how the plaintext reaches the writer: 0 one Write; 1 io.Copy from a plain reader; 2.. a short Write
+// followed by one Write of everything else (so that a write larger than a chunk meets a non-empty buffer), a full chunk
+// then the rest, and 100 + a chunk + the rest. Multiples of the chunk size always include the io.Copy style; above one
+// chunk the styles rotate so that every length class meets every style over a run.
+func writeStyle(n int) int {
+	t := int(atomic.AddInt32(&styleTurn, 1))
+	if n > 65536 {
+		return t % 5
+	}
+	if n%2 == 1 || (n > 0 && n%65536 == 0) {
+		return 1
+	}
+	return 0
+}
+
+func encryptObservedWith(recips []age.Recipient, pt []byte, armored bool, style int) Observation {
 	var o Observation
 	var buf bytes.Buffer
 	var sink io.Writer = &buf
@@ -147,10 +165,26 @@ func encryptObservedWith(recips []age.Recipient, pt []byte, armored bool, viaCop
 	if o.Err != nil {
 		return o
 	}
-	if viaCopy {
+	switch style {
+	case 1:
 		// a source without WriteTo: io.Copy would use an io.ReaderFrom of the writer if it had one
 		_, o.Err = io.Copy(wc, struct{ io.Reader }{bytes.NewReader(pt)})
-	} else {
+	case 2, 3, 4:
+		cuts := [][]int{{5}, {65536}, {100, 65536}}[style-2]
+		rest := pt
+		for _, c := range cuts {
+			if c > len(rest) {
+				c = len(rest)
+			}
+			if _, o.Err = wc.Write(rest[:c]); o.Err != nil {
+				break
+			}
+			rest = rest[c:]
+		}
+		if o.Err == nil {
+			_, o.Err = wc.Write(rest)
+		}
+	default:
 		_, o.Err = wc.Write(pt)
 	}
 	if o.Err != nil {
@@ -340,7 +374,7 @@ func checkEncryptWith(run *vk.Run, t *Terms, w *world.World, c *termCase, recips
 	if recips == nil {
 		o = encryptObserved(w, c.Rs, pt[:n], armored)
 	} else {
-		o = encryptObservedWith(recips, pt[:n], armored, n%2 == 1 || (n > 0 && n%65536 == 0))
+		o = encryptObservedWith(recips, pt[:n], armored, writeStyle(n))
 	}
 	run.Eval(1)
 	sig := fmt.Sprintf("rs=%s/n=%d/armor=%v", rsSig(c.Rs), n, armored)
@@ -352,7 +386,14 @@ func checkEncryptWith(run *vk.Run, t *Terms, w *world.World, c *termCase, recips
 	draws, err := alignDraws(c.Plan, o.Draws)
 	if err != nil {
 		if which == "C06" {
-			run.Violation("C06:draw-plan:"+rsSig(c.Rs), fmt.Sprintf("recipients [%s]: %v", rsSig(c.Rs), err), rp)
+			// the CSPRNG was not read in the planned pieces. That alone is not a violation (a refactoring may read its
+			// randomness differently); what C06 requires is decided directly: every secret that ends up in the file is a
+			// slice of what this Encrypt call drew from the CSPRNG, and no two of them share bytes.
+			if role, why := provenance(w, c, o, binaryOf(o.Out, armored)); role != "" {
+				run.Violation("C06:secret-not-from-csprng:"+role+":"+rsSig(c.Rs), fmt.Sprintf("recipients [%s], CSPRNG read in pieces %v (%v): %s", rsSig(c.Rs), sizes(o.Draws), err, why), rp)
+			} else {
+				run.Drift("draw plan differs for %s (%v); every secret of the file is a distinct slice of the call's CSPRNG output", rsSig(c.Rs), err)
+			}
 		} else {
 			run.Drift("draw plan differs for %s: %v", rsSig(c.Rs), err)
 		}
@@ -420,6 +461,97 @@ func checkEncryptWith(run *vk.Run, t *Terms, w *world.World, c *termCase, recips
 			}
 		}
 	}
+}
+
+// provenance: with the draws of one Encrypt call concatenated into a tape, the payload nonce, the file key, every
+// X25519 / ssh-ed25519 ephemeral secret and every scrypt salt of the file must each be a contiguous slice of the tape,
+// pairwise disjoint. Returns the role that fails ("" if none) and why.
+func provenance(w *world.World, c *termCase, o Observation, bin []byte) (string, string) {
+	var tape []byte
+	for _, d := range o.Draws {
+		tape = append(tape, d...)
+	}
+	hdr, payload, err := format.Parse(bytes.NewReader(bin))
+	if err != nil {
+		return "header", "the library's own output does not parse: " + err.Error()
+	}
+	type span struct {
+		role   string
+		lo, hi int
+	}
+	var spans []span
+	find := func(role string, v []byte) bool {
+		i := bytes.Index(tape, v)
+		if i < 0 {
+			return false
+		}
+		spans = append(spans, span{role, i, i + len(v)})
+		return true
+	}
+	nonce := make([]byte, 16)
+	if _, err := io.ReadFull(payload, nonce); err != nil {
+		return "nonce", "no payload nonce in the output"
+	}
+	if !find("nonce", nonce) {
+		return "nonce", fmt.Sprintf("the payload nonce %x is not among the %d bytes this call drew from the CSPRNG", nonce, len(tape))
+	}
+	var stz []*age.Stanza
+	for _, s := range hdr.Recipients {
+		stz = append(stz, (*age.Stanza)(s))
+	}
+	for _, r := range c.Rs {
+		if fk, err := w.Identity(r.ID).Unwrap(stz); err == nil {
+			if !find("filekey", fk) {
+				return "filekey", "the file key is not among the bytes this call drew from the CSPRNG"
+			}
+			break
+		}
+	}
+	for si, s := range hdr.Recipients {
+		role := fmt.Sprintf("%s#%d", s.Type, si+1)
+		switch s.Type {
+		case "scrypt":
+			if len(s.Args) < 1 {
+				continue
+			}
+			salt, err := base64.RawStdEncoding.DecodeString(s.Args[0])
+			if err != nil || !find(role+".salt", salt) {
+				return "salt", "the scrypt salt of stanza " + role + " is not among the bytes this call drew from the CSPRNG"
+			}
+		case "X25519", "ssh-ed25519":
+			share, err := base64.RawStdEncoding.DecodeString(s.Args[len(s.Args)-1])
+			if err != nil || len(share) != 32 {
+				continue
+			}
+			found := false
+			for i := 0; i+32 <= len(tape) && !found; i++ {
+				if pub, err := curve25519.X25519(tape[i:i+32], curve25519.Basepoint); err == nil && bytes.Equal(pub, share) {
+					spans = append(spans, span{role + ".ephemeral", i, i + 32})
+					found = true
+				}
+			}
+			if !found {
+				return "ephemeral", "the ephemeral share of stanza " + role + " does not come from 32 bytes this call drew from the CSPRNG"
+			}
+		}
+	}
+	for i := range spans {
+		for j := i + 1; j < len(spans); j++ {
+			if spans[i].lo < spans[j].hi && spans[j].lo < spans[i].hi {
+				return "overlap", fmt.Sprintf("%s and %s share CSPRNG bytes", spans[i].role, spans[j].role)
+			}
+		}
+	}
+	return "", ""
+}
+
+// appending wraps a recipient and, like a sloppy but legal implementation, appends to the file-key slice it is handed
+// before using it: whatever lies behind that slice in the caller's memory must not be part of the file.
+type appending struct{ r age.Recipient }
+
+func (a appending) Wrap(fileKey []byte) ([]*age.Stanza, error) {
+	_ = append(fileKey, []byte("key-commitment/1")...)
+	return a.r.Wrap(fileKey[:len(fileKey):len(fileKey)])
 }
 
 func loadRSA(w *world.World) {
@@ -746,6 +878,9 @@ func RunC06(tier string) {
 		}
 		// one history: the same recipient objects encrypt 2-4 files
 		recips := buildRecipients(w, c.Rs)
+		if i%4 == 1 && c.Rs[0].K != "S" {
+			recips[0] = appending{recips[0]} // same draws, same file; the recipient scribbles behind its argument
+		}
 		seen := map[string]string{}
 		files := 2 + i%3
 		for f := 0; f < files; f++ {
@@ -762,12 +897,97 @@ func RunC06(tier string) {
 	run.Add("histories", nh)
 	run.Sample(map[string]interface{}{"recipients": rsSig(t.Cases[len(t.Cases)/3].Rs), "plan": t.Cases[len(t.Cases)/3].Plan})
 	nonceReuseAfterWriteError(run, rng)
+	closedWriterPlans(run, rng)
 	repoSuiteTrace(run)
 	if run.Thorough() {
 		secondCarry(run, rng)
 	}
 	mathRandGuard(run)
 	run.Finish()
+}
+
+// closedWriterPlans: histories of the writer machine that go on calling a writer after Close (StreamMC, mode
+// "writer-postclose": every sequence of writes and closes up to MaxWrites calls), replayed on stream.Writer with a
+// destination that keeps every frame. Whatever the caller does after Close, the frames handed to the destination are
+// sealed under counters 0,1,2,... each used once, and the final flag is on one frame only, the last one.
+func closedWriterPlans(run *vk.Run, rng *rand.Rand) {
+	const C = 3
+	cfg := fmt.Sprintf("SPECIFICATION Spec\nCONSTANTS\n C = %d\n T = 2\n KeepHist = TRUE\n Mode = \"writer-postclose\"\n MaxL = 0\n ReadSizes = {}\n WriteSizes = {0, 1, 3, 4, 7}\n MaxWrites = %d\n Faults = FALSE\n ProbeIgnoresN = FALSE\nINVARIANTS HoldbackW FrameShapeW SuccessMeansCompleteW EmitWriter\nCHECK_DEADLOCK FALSE\n", C, run.Pick(4, 5))
+	res := run.SpecMustHold("closed-writer-plans", vk.TLCOpts{Module: "StreamMC", Config: cfg, Workers: 16})
+	lines := res.PrintsWithPrefix("CASE ")
+	type hrec struct {
+		A string `json:"a"`
+		N int    `json:"n"`
+	}
+	type pcase struct {
+		Hist []hrec `json:"hist"`
+	}
+	key := make([]byte, 32)
+	rng.Read(key)
+	aead, _ := chacha20poly1305.New(key)
+	unit := func(u int) int { return (u/C)*strm.Chunk + []int{0, 1, strm.Chunk - 1}[u%C] } // model units -> bytes, chunk edges kept
+	data := make([]byte, 4*strm.Chunk)
+	rng.Read(data)
+	n := 0
+	for _, l := range lines {
+		var c pcase
+		if err := json.Unmarshal([]byte(l), &c); err != nil {
+			vk.Infra("bad CASE: %v", err)
+		}
+		post := false
+		closedSeen := false
+		for _, h := range c.Hist {
+			if closedSeen {
+				post = true
+			}
+			if h.A == "close" {
+				closedSeen = true
+			}
+		}
+		if !post {
+			continue // histories ending at Close are replayed by C13's writer plans
+		}
+		d := &attemptDst{}
+		w, err := stream.NewWriter(key, d)
+		if err != nil {
+			vk.Infra("%v", err)
+		}
+		var ops []string
+		cum := 0
+		for _, h := range c.Hist {
+			if h.A == "close" {
+				w.Close()
+				ops = append(ops, "close")
+			} else {
+				nb := unit(cum+h.N) - unit(cum)
+				cum += h.N
+				w.Write(data[:nb]) // results deliberately ignored: the caller carries on whatever it is told
+				ops = append(ops, fmt.Sprint(nb))
+			}
+		}
+		run.Eval(1)
+		n++
+		sig := strings.Join(ops, ",")
+		finals := 0
+		for i, fr := range d.attempts {
+			_, e0 := aead.Open(nil, strm.Nonce(i, false), fr, nil)
+			_, e1 := aead.Open(nil, strm.Nonce(i, true), fr, nil)
+			rp := map[string]interface{}{"check": "C06.postclose", "ops": ops, "frame": i}
+			if e0 != nil && e1 != nil {
+				run.Violation("C06:frame-not-under-its-counter:postclose:"+sig, fmt.Sprintf("calls %s: frame %d handed to the destination is not sealed under counter %d", sig, i, i), rp)
+				break
+			}
+			if e1 == nil {
+				finals++
+				if i != len(d.attempts)-1 {
+					run.Violation("C06:final-flag-not-last:postclose:"+sig, fmt.Sprintf("calls %s: frame %d of %d carries the final flag", sig, i+1, len(d.attempts)), rp)
+					break
+				}
+			}
+		}
+		run.Distinct("postclose:" + sig)
+	}
+	run.Add("closed_writer_histories", n)
 }
 
 // attemptDst records every frame handed to it, also the ones it refuses.
@@ -917,6 +1137,18 @@ func repoSuiteTrace(run *vk.Run) {
 		}
 		run.Drift("the repository's suite produced no hook trace (hooks without VERIF_TRACE support?)")
 		return
+	}
+	// HookTrace.tla speaks about the STREAM and scrypt events only; the flow events (age.enc.*, age.dec.*) in the same
+	// log are AgeFlowTrace's business (C01, C03, C04, C11)
+	var kept []byte
+	for _, line := range bytes.Split(b, []byte("\n")) {
+		if bytes.Contains(line, []byte(`"ev":"stream.`)) || bytes.Contains(line, []byte(`"ev":"scrypt.`)) {
+			kept = append(append(kept, line...), '\n')
+		}
+	}
+	b = kept
+	if err := os.WriteFile(trace, b, 0o644); err != nil {
+		vk.Infra("%v", err)
 	}
 	nlines := bytes.Count(b, []byte("\n"))
 	cfg := "SPECIFICATION Spec\nCONSTANTS\n C = 65536\n MaxLogN = 22\nCONSTRAINT HighWater\nPOSTCONDITION Accepted\nCHECK_DEADLOCK FALSE\n"
